@@ -21,6 +21,7 @@ import (
 	"bufio"
 	"bytes"
 	"crypto/tls"
+	"encoding/json"
 	"fmt"
 	"io"
 	"net"
@@ -67,6 +68,12 @@ type LOp struct {
 	Conns  string `json:"conns,omitempty"`  // "" none | inflight (POST headers + part of the body sent) | idle (keep-alive connection after a completed request) | silent (connected, nothing sent)
 	NConns int    `json:"nconns,omitempty"` // 1-2
 
+	// remove of an HTTP listener: a request of a second operator that is dispatched (from
+	// another goroutine, as a second handleRequest would) while the removal sits in the 5 s
+	// window of (*HTTP).Stop(): add (same name or another name; port "victim" = the port
+	// being freed), edit of the listener being removed, or a second remove of it
+	Overlap *LOp `json:"overlap,omitempty"`
+
 	SvcReply string `json:"svc_reply,omitempty"` // svc add: how the service script answers ListenerStart: ok | error | silent
 	Stale    bool   `json:"stale,omitempty"`     // edit: the dialog was opened while the name was an HTTP listener (Protocol "Http" whatever it is now)
 }
@@ -110,6 +117,39 @@ func genRemoveConns(t *rapid.T, op *LOp) {
 	if op.Conns != "" {
 		op.NConns = rapid.IntRange(1, 2).Draw(t, "nconns")
 	}
+}
+
+// genOverlap draws the second operator's request for a removal of the HTTP listener name.
+func genOverlap(t *rapid.T, name string, pred map[string]string) *LOp {
+	o := &LOp{Name: name}
+	switch rapid.SampledFrom([]string{"add-same", "add-same", "add-other", "edit", "remove", "remove"}).Draw(t, "overlap") {
+	case "add-same", "add-other":
+		o.Op = "add"
+		o.Kind = rapid.SampledFrom([]string{"http", "http", "smb", "ext", "svc"}).Draw(t, "okind")
+		if o.Kind == "http" {
+			genHTTPAdd(t, o)
+			genHTTPCfg(t, o)
+			o.Via = ""
+			o.Port = rapid.SampledFrom([]string{"victim", "victim", "fresh"}).Draw(t, "oport")
+		}
+		if o.Kind == "svc" {
+			o.SvcReply = "ok"
+		}
+		if rapid.IntRange(0, 2).Draw(t, "other") == 0 {
+			for _, n := range append(append([]string(nil), namesA...), "d") {
+				if _, taken := pred[n]; !taken && n != name {
+					o.Name = n
+					break
+				}
+			}
+		}
+	case "edit":
+		o.Op = "edit"
+		genHTTPCfg(t, o)
+	case "remove":
+		o.Op = "remove"
+	}
+	return o
 }
 
 // genOps draws n operations; pred is the generator's own prediction of name -> kind (used
@@ -197,10 +237,17 @@ func genB(t *rapid.T) CaseA {
 	ops = append(ops, genOps(t, rapid.IntRange(0, 2).Draw(t, "n2"), pred, &none)...)
 	if pred[name] == "http" {
 		rm := LOp{Op: "remove", Name: name}
-		genRemoveConns(t, &rm)
+		if rapid.IntRange(0, 3).Draw(t, "with-overlap") == 0 {
+			rm.Overlap = genOverlap(t, name, pred)
+		} else {
+			genRemoveConns(t, &rm)
+		}
 		ops = append(ops, rm)
 		delete(pred, name)
-		if rapid.Bool().Draw(t, "reuse-name") {
+		if o := rm.Overlap; o != nil && o.Op == "add" && o.Name != name {
+			pred[o.Name] = o.Kind
+		}
+		if rm.Overlap == nil && rapid.Bool().Draw(t, "reuse-name") {
 			// the name must be usable again right away
 			re := LOp{Op: "add", Name: name, Kind: rapid.SampledFrom([]string{"http", "smb", "ext"}).Draw(t, "rekind")}
 			if re.Kind == "http" {
@@ -626,132 +673,187 @@ func checkA(c CaseA) *core.Violation {
 		return v
 	}
 
+	// modelCheck: the listener list holds exactly the names the history so far amounts to
+	// (a listener of another name must not vanish or appear as a side effect).
+	modelCheck := func(after string) *core.Violation {
+		want := []string{svcx.OpExt}
+		for n := range model {
+			want = append(want, n)
+		}
+		var got []string
+		for _, l := range ts.Listeners {
+			got = append(got, l.Name)
+		}
+		sort.Strings(want)
+		sort.Strings(got)
+		if strings.Join(want, ",") != strings.Join(got, ",") {
+			return core.V("listener|set|differs-from-history|after-"+after, "after %s: ts.Listeners holds {%s}, the history amounts to {%s}", after, strings.Join(got, ","), strings.Join(want, ","))
+		}
+		return nil
+	}
+
+	// ---- an add in three movements, so that it can also be sent inside another request's window
+	type addCtx struct {
+		op        LOp
+		me        *ent
+		before    []*server.Listener
+		info      map[string]string
+		port      string
+		cfg       httpCfg
+		from      int
+		ownBefore map[string]bool
+		lenient   bool // whether the teamserver takes the add is observed, not demanded
+	}
+	addPrep := func(op LOp, victimPort string) (*addCtx, bool) {
+		a := &addCtx{op: op, me: model[op.Name], before: find(ts, op.Name)}
+		a.info = map[string]string{"Name": op.Name, "Protocol": protoOf(op.Kind), "Status": "online"}
+		a.cfg = httpCfg{UA: op.UA, Uris: op.Uris, Headers: op.Headers}
+		switch op.Kind {
+		case "http":
+			switch {
+			case op.Port == "busy":
+				a.port = w.busyP
+			case op.Port == "same":
+				a.port = w.busyP
+				for _, n := range namesA {
+					if e := model[n]; e != nil && e.kind == "http" && e.active && e.port != "" {
+						a.port = e.port
+						break
+					}
+				}
+			case op.Port == "empty":
+				a.port = ""
+			case op.Port == "victim" && victimPort != "":
+				a.port = victimPort
+			default:
+				var err error
+				if a.port, err = svcx.FreePort(); err != nil {
+					skip("free-port", err)
+					return nil, false
+				}
+			}
+			a.info = httpInfo(op.Name, a.port, a.cfg, op)
+		case "smb":
+			a.info["PipeName"] = "pipe_" + op.Name
+		case "ext":
+			a.info["Endpoint"] = "ep_" + op.Name
+		case "svc":
+			a.info["ClientUser"] = "op"
+			a.info["Host"] = "127.0.0.1"
+			w.svc.ListenerReply = op.SvcReply
+		}
+		return a, true
+	}
+	addSend := func(a *addCtx) *core.Violation {
+		op := a.op
+		a.from = len(w.svc.Received())
+		if op.Kind == "http" && a.port == "" {
+			a.ownBefore = svcx.OwnListenPorts()
+		}
+		if op.Kind == "http" && op.Via == "start" {
+			return w.guard("add", func() { ts.ListenerStart(handlers.LISTENER_HTTP, httpConfig(op.Name, a.port, a.cfg, op)) })
+		}
+		return w.operate("add", packager.Type.Listener.Add, a.info)
+	}
+	addJudge := func(i int, a *addCtx, label string) *core.Violation {
+		op, me, before, port, cfg := a.op, a.me, a.before, a.port, a.cfg
+		if op.Kind == "svc" {
+			// DispatchEvent wrote the ListenerStart request (if it forwards one) to the script's
+			// socket before it returned.  Barrier 1: its reply travels behind that request, and
+			// the script answers in order, so once the reply is here the script's answer to
+			// ListenerStart has been sent.  Barrier 2: sent after that answer, so once its reply
+			// is here the teamserver has dispatched the answer.
+			for k := 0; k < 2; k++ {
+				if err := w.svc.Barrier(); err != nil {
+					return inconclusive("barrier: %v", err)
+				}
+			}
+			forwarded := false
+			for _, m := range w.svc.Received()[a.from:] {
+				l, _ := m["Body"]["Listener"].(map[string]any)
+				if m["Body"]["Type"] == "ListenerStart" && l["Name"] == op.Name {
+					forwarded = true
+				}
+			}
+			if me == nil && !forwarded && !a.lenient {
+				return core.V("listener|add|service|start-request-not-forwarded", "step %d: the service connection that defines %q did not receive the ListenerStart request for the new name %q", i, svcKind, op.Name)
+			}
+		}
+		if !svcx.Quiesce() {
+			return inconclusive("teamserver goroutines did not come to rest after add")
+		}
+		after := find(ts, op.Name)
+		if me != nil {
+			label += "-duplicate"
+			// a name that exists must be refused and nothing may change
+			if len(after) == 1 && len(before) == 1 && after[0] != before[0] {
+				return core.V("listener|add|duplicate-name-replaced|"+op.Kind, "step %d: add %s %q while %q exists replaced the running listener", i, op.Kind, op.Name, op.Name)
+			}
+		} else {
+			switch {
+			case a.lenient:
+			case len(after) == 0 && (op.Kind == "smb" || op.Kind == "ext" || op.Kind == "svc"):
+				return core.V("listener|add|missing|"+op.Kind, "step %d: add %s %q (new name) left no listener of that name", i, op.Kind, op.Name)
+			case len(after) == 0 && op.Kind == "http" && (op.Port == "fresh" || op.Port == "empty"):
+				return core.V("listener|add|missing|http", "step %d: add http %q (new name, free port %s) left no listener of that name", i, op.Name, port)
+			}
+			if len(after) >= 1 {
+				e := &ent{kind: kindOfListener(after[0]), port: port, cfg: cfg, secure: op.Kind == "http" && op.Secure, op: op}
+				if a.ownBefore != nil {
+					// PortBind "": the kernel chose; find the listening socket that appeared
+					var fresh []string
+					for p := range svcx.OwnListenPorts() {
+						if !a.ownBefore[p] {
+							fresh = append(fresh, p)
+						}
+					}
+					if len(fresh) == 1 {
+						e.port = fresh[0]
+					}
+				}
+				if e.kind != op.Kind {
+					return core.V("listener|add|wrong-kind|"+op.Kind, "step %d: add %s %q produced a %s listener", i, op.Kind, op.Name, e.kind)
+				}
+				if h, ok := after[0].Config.(*handlers.HTTP); ok {
+					e.active = h.Active
+				}
+				model[op.Name] = e
+			}
+		}
+		if v := w.invariants(label); v != nil {
+			return v
+		}
+		if v := modelCheck(label); v != nil {
+			return v
+		}
+		if e := model[op.Name]; me == nil && e != nil && e.kind == "http" && e.active && e.port != "" {
+			code, err := w.post(e, probeFor(e.cfg))
+			if err != nil {
+				h := after[0].Config.(*handlers.HTTP)
+				return core.V("listener|add|http|not-serving", "step %d: listener %q reports Active on port %s but a request fails: %v (now: Active=%v, this process listens on the port=%v, all goroutines parked=%v)\n%s", i, op.Name, e.port, err, h.Active, svcx.OwnListening(e.port), svcx.Quiesce(), strings.Join(svcx.Goroutines(), "\n\n"))
+			}
+			if code != 200 {
+				return core.V("listener|add|http|own-request-refused", "step %d: listener %q answers %d to a request carrying its own user agent/URI/headers %+v", i, op.Name, code, e.cfg)
+			}
+		}
+		return nil
+	}
+
 	for i, op := range c.Ops {
 		me := model[op.Name]
 		before := find(ts, op.Name)
 		switch op.Op {
 
 		case "add":
-			info := map[string]string{"Name": op.Name, "Protocol": protoOf(op.Kind), "Status": "online"}
-			port := ""
-			cfg := httpCfg{UA: op.UA, Uris: op.Uris, Headers: op.Headers}
-			switch op.Kind {
-			case "http":
-				switch op.Port {
-				case "busy":
-					port = w.busyP
-				case "same":
-					port = w.busyP
-					for _, n := range namesA {
-						if e := model[n]; e != nil && e.kind == "http" && e.active && e.port != "" {
-							port = e.port
-							break
-						}
-					}
-				case "empty":
-					port = ""
-				default:
-					if port, err = svcx.FreePort(); err != nil {
-						return skip("free-port", err)
-					}
-				}
-				info = httpInfo(op.Name, port, cfg, op)
-			case "smb":
-				info["PipeName"] = "pipe_" + op.Name
-			case "ext":
-				info["Endpoint"] = "ep_" + op.Name
-			case "svc":
-				info["ClientUser"] = "op"
-				info["Host"] = "127.0.0.1"
-				w.svc.ListenerReply = op.SvcReply
+			a, ok := addPrep(op, "")
+			if !ok {
+				return nil
 			}
-			from := len(w.svc.Received())
-			var ownBefore map[string]bool
-			if op.Kind == "http" && port == "" {
-				ownBefore = svcx.OwnListenPorts()
-			}
-			if op.Kind == "http" && op.Via == "start" {
-				if v := w.guard("add", func() { ts.ListenerStart(handlers.LISTENER_HTTP, httpConfig(op.Name, port, cfg, op)) }); v != nil {
-					return v
-				}
-			} else if v := w.operate("add", packager.Type.Listener.Add, info); v != nil {
+			if v := addSend(a); v != nil {
 				return v
 			}
-			if op.Kind == "svc" {
-				// DispatchEvent wrote the ListenerStart request (if it forwards one) to the script's
-				// socket before it returned.  Barrier 1: its reply travels behind that request, and
-				// the script answers in order, so once the reply is here the script's answer to
-				// ListenerStart has been sent.  Barrier 2: sent after that answer, so once its reply
-				// is here the teamserver has dispatched the answer.
-				for k := 0; k < 2; k++ {
-					if err := w.svc.Barrier(); err != nil {
-						return inconclusive("barrier: %v", err)
-					}
-				}
-				forwarded := false
-				for _, m := range w.svc.Received()[from:] {
-					l, _ := m["Body"]["Listener"].(map[string]any)
-					if m["Body"]["Type"] == "ListenerStart" && l["Name"] == op.Name {
-						forwarded = true
-					}
-				}
-				if me == nil && !forwarded {
-					return core.V("listener|add|service|start-request-not-forwarded", "step %d: the service connection that defines %q did not receive the ListenerStart request for the new name %q", i, svcKind, op.Name)
-				}
-			}
-			if !svcx.Quiesce() {
-				return inconclusive("teamserver goroutines did not come to rest after add")
-			}
-			after := find(ts, op.Name)
-			label := "add-" + op.Kind
-			if me != nil {
-				label += "-duplicate"
-				// a name that exists must be refused and nothing may change
-				if len(after) == 1 && len(before) == 1 && after[0] != before[0] {
-					return core.V("listener|add|duplicate-name-replaced|"+op.Kind, "step %d: add %s %q while %q exists replaced the running listener", i, op.Kind, op.Name, op.Name)
-				}
-			} else {
-				switch {
-				case len(after) == 0 && (op.Kind == "smb" || op.Kind == "ext" || op.Kind == "svc"):
-					return core.V("listener|add|missing|"+op.Kind, "step %d: add %s %q (new name) left no listener of that name", i, op.Kind, op.Name)
-				case len(after) == 0 && op.Kind == "http" && (op.Port == "fresh" || op.Port == "empty"):
-					return core.V("listener|add|missing|http", "step %d: add http %q (new name, free port %s) left no listener of that name", i, op.Name, port)
-				}
-				if len(after) >= 1 {
-					e := &ent{kind: kindOfListener(after[0]), port: port, cfg: cfg, secure: op.Kind == "http" && op.Secure, op: op}
-					if ownBefore != nil {
-						// PortBind "": the kernel chose; find the listening socket that appeared
-						var fresh []string
-						for p := range svcx.OwnListenPorts() {
-							if !ownBefore[p] {
-								fresh = append(fresh, p)
-							}
-						}
-						if len(fresh) == 1 {
-							e.port = fresh[0]
-						}
-					}
-					if e.kind != op.Kind {
-						return core.V("listener|add|wrong-kind|"+op.Kind, "step %d: add %s %q produced a %s listener", i, op.Kind, op.Name, e.kind)
-					}
-					if h, ok := after[0].Config.(*handlers.HTTP); ok {
-						e.active = h.Active
-					}
-					model[op.Name] = e
-				}
-			}
-			if v := w.invariants(label); v != nil {
+			if v := addJudge(i, a, "add-"+op.Kind); v != nil {
 				return v
-			}
-			if e := model[op.Name]; me == nil && e != nil && e.kind == "http" && e.active && e.port != "" {
-				code, err := w.post(e, probeFor(e.cfg))
-				if err != nil {
-					h := after[0].Config.(*handlers.HTTP)
-					return core.V("listener|add|http|not-serving", "step %d: listener %q reports Active on port %s but a request fails: %v (now: Active=%v, this process listens on the port=%v, all goroutines parked=%v)\n%s", i, op.Name, e.port, err, h.Active, svcx.OwnListening(e.port), svcx.Quiesce(), strings.Join(svcx.Goroutines(), "\n\n"))
-				}
-				if code != 200 {
-					return core.V("listener|add|http|own-request-refused", "step %d: listener %q answers %d to a request carrying its own user agent/URI/headers %+v", i, op.Name, code, e.cfg)
-				}
 			}
 
 		case "edit":
@@ -997,7 +1099,8 @@ func shrinkBudget[C any](d time.Duration, check func(C) *core.Violation) func(C)
 		if os.Getenv("VERIF_REPLAY") != "" {
 			return check(c)
 		}
-		key := fmt.Sprintf("%+v", c)
+		kb, _ := json.Marshal(c)
+		key := string(kb)
 		if !firstFail.IsZero() && time.Since(firstFail) > d {
 			return seen[key]
 		}
